@@ -101,6 +101,20 @@ def _sample_rec(s):
     return [to_us(s.timestamp), int(v.base_value), 0]
 
 
+async def _shutdown():
+    """Cancel every other task, a bounded number of rounds.  (frequenz.channels' Timer.ready() swallows a
+    CancelledError that arrives while it cleans up its helper tasks, so `await task` after one cancel() can
+    wait for ever; nothing is recorded after the "end" entry anyway.)"""
+    me = asyncio.current_task()
+    for _ in range(200):
+        rest = [t for t in asyncio.all_tasks() if t is not me and not t.done()]
+        if not rest:
+            break
+        for t in rest:
+            t.cancel()
+        await asyncio.sleep(0)
+
+
 async def _scenario(case, loop):
     import time_machine
     from frequenz.sdk.timeseries._resampling import Resampler, ResamplerConfig, ResamplingError
@@ -236,17 +250,7 @@ async def _scenario(case, loop):
             task = asyncio.create_task(supervisor())
         await env.sleep_until(case["duration"])
         log.append(["end", env.clk()])
-        task.cancel()
-        try:
-            await task
-        except BaseException:
-            pass
-        await rs.stop()
-        me = asyncio.current_task()
-        rest = [t for t in asyncio.all_tasks() if t is not me]
-        for t in rest:
-            t.cancel()
-        await asyncio.gather(*rest, return_exceptions=True)
+        await _shutdown()
         clock.advance = orig_advance
     return {"log": log}
 
@@ -579,6 +583,12 @@ def gen_c07_case(rng, tier):
     hogs.sort()
     # hogs must not overlap each other
     hogs = [h for i, h in enumerate(hogs) if i == 0 or h[0] > hogs[i - 1][0] + hogs[i - 1][1]]
+    # a driver action that falls into a blocked interval would run together with the ticks released at its end
+    for s in series:
+        for fld in ("add_at", "remove_at"):
+            for h0, d in hogs:
+                if s.get(fld) and h0 - 3 <= s[fld] <= h0 + d + 3 and rng.random() < 0.9:
+                    s[fld] = (h0 + d) // 1000 * 1000 + 2000 + r_add
     return {"period": p, "align": align, "start": start, "loop_t0": loop_t0, "age": [3, 1], "init_len": 16,
             "warn_len": 128, "max_len": 1024, "one_shot": one_shot, "duration": duration, "series": series, "hogs": hogs,
             "tag": {"align": kind, "phase": ("0" if phase == 0 else "+1" if phase == 1 else "-1" if phase == p - 1 else
@@ -873,12 +883,8 @@ async def _actor_scenario(case, loop):
                 log.append(["hog", a, env.clk()])
         await env.sleep_until(case["duration"])
         log.append(["end", env.clk()])
-        await actor.stop()
-        me = asyncio.current_task()
-        rest = [t for t in asyncio.all_tasks() if t is not me]
-        for t in rest:
-            t.cancel()
-        await asyncio.gather(*rest, return_exceptions=True)
+        actor.cancel()
+        await _shutdown()
         clock.advance = orig_advance
     return {"log": log}
 
